@@ -208,6 +208,9 @@ func runCase(t *rapid.T, c caseT) {
 					o.Metadata.Set("h", hs.Name)
 				}
 			}
+			if len(outs) == 0 && len(tag)%2 == 0 {
+				outs = message.Messages{} // "nothing" as an empty slice rather than nil
+			}
 			rec := handled{handler: hs.Name, ctx: msg.Context(), outs: append([]*message.Message(nil), outs...), ctxVals: ctxVals(msg.Context())}
 			for _, o := range outs {
 				rec.snaps = append(rec.snaps, lib.SnapOf(o))
@@ -224,6 +227,18 @@ func runCase(t *rapid.T, c caseT) {
 			h = router.AddNoPublisherHandler(hs.Name, hs.SubTopic, subIface[hs.Sub], func(msg *message.Message) error {
 				_, err := fn(msg)
 				return err
+			})
+		}
+		if !hs.AppendMW && hs.Sub%2 == 0 {
+			// a middleware that says "nothing produced" with an empty slice instead of nil (filtering middlewares do)
+			h.AddMiddleware(func(next message.HandlerFunc) message.HandlerFunc {
+				return func(msg *message.Message) ([]*message.Message, error) {
+					out, err := next(msg)
+					if len(out) == 0 {
+						out = make([]*message.Message, 0, 1)
+					}
+					return out, err
+				}
 			})
 		}
 		if hs.AppendMW {
